@@ -4,6 +4,7 @@ import (
 	"encoding/json"
 	"fmt"
 	"net/http"
+	"os"
 	"runtime"
 	"sort"
 	"strings"
@@ -62,6 +63,9 @@ func (c *wsClient) takeNew() [][]byte {
 	c.taken = len(c.frames)
 	return out
 }
+
+// crashLog receives every stimulus before it is applied (truncated at the start of a history).
+var crashLog *os.File
 
 type worldCfg struct {
 	referenceThrottle int
@@ -241,6 +245,10 @@ func (w *world) answerTooLong() {
 func (w *world) apply(stim string, f func()) {
 	if w.stall != "" {
 		return
+	}
+	if crashLog != nil {
+		// the gateway runs without recover: a panic kills this process, the log is the replay
+		crashLog.WriteString(stim + "\n")
 	}
 	f()
 	for i := 0; i < 50; i++ {
